@@ -18,7 +18,14 @@ CONSTANTS Zones,          \* subset of 1..3
           HeardStale,     \* see HeardFrag
           HeardAcks       \* whether another device's write acknowledgements are overheard
 
-Fix == [lock |-> FixLock, ack |-> FixAck, stale |-> FixStale]
+\* Two more parameters, given as definitions so that an instance overrides them in its cfg (X <- Y) and the others need
+\* not name them:  Shared[c] = the positions at which the fragment of version c is byte-identical with that of version c-1 (an
+\* edit late in the week leaves the head of the compressed stream as it was);  FixHead, see SchedXferCore.
+Shared  == NoShare
+FixHead == FALSE
+
+Fix == [lock |-> FixLock, ack |-> FixAck, stale |-> FixStale, head |-> FixHead]
+Cod == [zlib |-> ZlibDetects, sh |-> Shared]
 
 VARIABLES G,              \* gateway side (core)
           late,           \* replies on their way to a transfer that was cancelled meanwhile
@@ -105,7 +112,8 @@ CtAfterRecv(c, z) == IF IsFinalPut(z) THEN Changed(c, z, Z(G, z).wr) ELSE c
 \* the reply the controller produces for it
 ReplyOf(z) == LET r == Z(G, z) IN
     CASE IsVer(z) -> [z |-> z, kind |-> "ver", c |-> (IF IsFinalPut(z) THEN ctr + 1 ELSE ctr), k |-> 0, n |-> 0]
-      [] r.pc = "w_frag" -> [z |-> z, kind |-> "frag", c |-> cver[z], k |-> ReqFrag(G, z), n |-> NFrags(cver[z])]
+      [] r.pc = "w_frag" -> [z |-> z, kind |-> "frag", c |-> Rep(Shared, cver[z], ReqFrag(G, z)), k |-> ReqFrag(G, z),
+                             n |-> NFrags(cver[z])]
       [] r.pc = "w_put" -> [z |-> z, kind |-> "ack", c |-> Ack, k |-> r.k, n |-> r.nfr]
 
 \* (the controller answers in order: the reply to an abandoned exchange arrives before any later
@@ -117,7 +125,7 @@ Exch(z, outcome) ==
            m  == ReplyOf(z)
            G2 == CASE outcome # "ok" -> Fail(G, z, "err", Fix)
                    [] m.kind = "ver"  -> OnVer(G, z, m.c, Fix)
-                   [] m.kind = "frag" -> OnFrag(G, z, m.c, m.k, m.n, ZlibDetects, Fix)
+                   [] m.kind = "frag" -> OnFrag(G, z, m.c, m.k, m.n, Cod, Fix)
                    [] m.kind = "ack"  -> OnPutAck(G, z)
        IN  /\ G' = G2 /\ NoteEnd(G2)
            /\ IF outcome = "lost" THEN UNCHANGED <<ctr, cver>> ELSE CtlRecv(z)
@@ -146,8 +154,8 @@ Abort(z, why) ==
 \* the reply to an abandoned exchange arrives: only the dispatcher sees it
 Late(m) ==
     /\ m \in late /\ late' = late \ {m}
-    /\ G' = CASE m.kind = "frag" -> Heard(G, m.z, m.c, m.k, m.n, ZlibDetects)
-              [] m.kind = "ack"  -> HeardAck(G, m.z, m.k, m.n, ZlibDetects, Fix)
+    /\ G' = CASE m.kind = "frag" -> Heard(G, m.z, m.c, m.k, m.n, Cod)
+              [] m.kind = "ack"  -> HeardAck(G, m.z, m.k, m.n, Cod, Fix)
               [] m.kind = "ver"  -> Heard6(G, m.c)
     /\ ct' = IF m.kind = "ver" THEN VRead(ct) ELSE ct
     /\ UNCHANGED <<ctr, cver, phase, cnt, lastEnded, fuDone, lockAtMainEnd, h>>
@@ -185,7 +193,7 @@ Bump(z) ==
 HeardFrag(z, c, k) ==
     /\ phase = "main" /\ cnt.heard < MaxHeard
     /\ c \in (IF HeardStale THEN 0..cver[z] ELSE {cver[z]}) /\ k \in 1..NFrags(c)
-    /\ G' = Heard(G, z, c, k, NFrags(c), ZlibDetects)
+    /\ G' = Heard(G, z, Rep(Shared, c, k), k, NFrags(c), Cod)
     /\ cnt' = [cnt EXCEPT !.heard = @ + 1]
     /\ h' = Append(h, Ev("heard", z, c, k, 0))
     /\ UNCHANGED <<late, ctr, cver, phase, ct, lastEnded, fuDone, lockAtMainEnd>>
@@ -195,7 +203,7 @@ HeardFrag(z, c, k) ==
 HeardAckOf(z, k) ==
     /\ phase = "main" /\ cnt.heard < MaxHeard /\ HeardAcks
     /\ k \in 1..NFrags(cver[z])
-    /\ G' = HeardAck(G, z, k, NFrags(cver[z]), ZlibDetects, Fix)
+    /\ G' = HeardAck(G, z, k, NFrags(cver[z]), Cod, Fix)
     /\ cnt' = [cnt EXCEPT !.heard = @ + 1]
     /\ h' = Append(h, Ev("heardack", z, k, NFrags(cver[z]), 0))
     /\ UNCHANGED <<late, ctr, cver, phase, ct, lastEnded, fuDone, lockAtMainEnd>>
